@@ -62,8 +62,10 @@ def range_loop_general(interp, st, rng, fr):
     interp.assign(st.target, SInt(ctx.int_const(ctx.fresh("i"), 0)), fr)
     try:
         interp.block(st.body, fr)
-    except (BreakEx, ContinueEx):
-        raise Undecided("break/continue in a loop over a symbolic range")
+    except ContinueEx:
+        pass                          # `continue`: the iteration ends here
+    except BreakEx:
+        raise Undecided("break in a loop over a symbolic range")
     ctx.oblige("loop/variant-decreases", zint(src.consumed) - c0 >= 1)
     after = ctx.int_const(ctx.fresh("skipped"), 0)
     ctx.assume(after <= zint(src.remaining()))
